@@ -1409,6 +1409,19 @@ func (x *Exec) computeOrdinals() {
 func verifyFunc(w *World, sp *Specs, prog *Program, fi *FuncInfo, spec *FuncSpec, prop string) *Exec {
 	x := &Exec{w: w, sp: sp, prog: prog, fn: fi, spec: spec, prop: prop, decls: map[string]string{}}
 	x.computeOrdinals()
+	x.localOrd = map[types.Object]int{}
+	x.usedLocals = map[string]int{}
+	ast.Inspect(fi.decl, func(n ast.Node) bool {
+		if id, ok := n.(*ast.Ident); ok {
+			if o, ok := fi.pkg.TypesInfo.Defs[id].(*types.Var); ok && o != nil {
+				if _, seen := x.localOrd[o]; !seen {
+					x.localOrd[o] = len(x.localDecls)
+					x.localDecls = append(x.localDecls, o)
+				}
+			}
+		}
+		return true
+	})
 	if spec.Trusted || fi.decl.Body == nil {
 		return x
 	}
